@@ -720,7 +720,7 @@ class PerStream(runner.Stream):
         return s
 
     def oracle(self, req, ans):
-        if ans in ("panic", "abort") or ans.endswith("panic"):
+        if ans in ("panic", "abort", "hang") or ans.endswith("panic"):
             return "panic instead of Ok/Err"
         if ans == "bad-op":
             return "the harness does not understand the request"
